@@ -487,9 +487,23 @@ def rule_scoped_names(repo, res):
     f = sm.func("FFCXBackendSymbols.weights_table")
     key = f"{f.key}:name-has-rule-id"
     res.ob(key)
-    src = ast.unparse(f.node)
-    if len(re.findall(rf"weights_\{{{f.params[1]}\.id\(\)\}}", src)) < 2:
-        res.fail(key, "weights tables are not named (and cached) by the rule id", sm.line(f.node))
+    from ..absint import Interp as _I, Node as _N, Raised as _R, _PyCall as _PC
+    from ..lnodes_model import load_classes as _lc
+
+    it_ = _I(repo, _lc(repo), primary="ffcx.codegeneration.symbols")
+    it_.obj_classes["FFCXBackendSymbols"] = "ffcx.codegeneration.symbols"
+    symbols = _N("FFCXBackendSymbols", quadrature_weight_tables={})
+    r0 = _N("QuadratureRule", id=_PC(lambda: "aaaa000000"))
+    r1 = _N("QuadratureRule", id=_PC(lambda: "bbbb111111"))
+    try:
+        s0 = it_.call_f(f, [symbols, r0])
+        s1 = it_.call_f(f, [symbols, r1])
+        s0b = it_.call_f(f, [symbols, r0])
+        n0, n1, n0b = s0.f.get("name"), s1.f.get("name"), s0b.f.get("name")
+    except _R as e:
+        n0 = n1 = n0b = f"raises {e.what}"
+    if not (isinstance(n0, str) and "aaaa000000" in n0 and "bbbb111111" in str(n1) and n0 != n1 and n0 == n0b):
+        res.fail(key, f"weights tables of two rules are named {n0!r} and {n1!r} (again: {n0b!r}): the name must contain the rule id and be stable per rule", sm.line(f.node))
     et = repo.mod("ffcx.ir.elementtables")
     f = et.func("generate_psi_table_name")
     key = f"{f.key}:name-has-rule-id"
